@@ -21,6 +21,7 @@ Ev == Traces[tid][l]
 TraceInit == tid \in 1..N /\ l = 2 /\ input = Traces[tid][1].input /\ runs = <<>> /\ digest = "none"
 T_Run ==
   /\ l <= Len(Traces[tid]) /\ Ev.e = "run" /\ l' = l + 1 /\ tid' = tid
+  /\ [seed |-> Ev.seed, order |-> Ev.order, target |-> Ev.target] \in Envs      \* a known environment
   /\ Run([seed |-> Ev.seed, order |-> Ev.order, target |-> Ev.target])
   /\ (digest = "none" \/ Ev.digest = digest)        \* same bytes as every earlier run of this input
   /\ digest' = Ev.digest
